@@ -25,7 +25,7 @@ import (
 // complete schedule (observed actions plus the internal steps of the machine, see
 // c06Guess) and the observed trace into the case, so that a case replays the same trace:
 //
-//	recover, nH, nH x [cmd, flags], nInit, nInit x [h], nE, nE x [cmd, echo], nC, nC x [clear
+//	recover, nH, nH x [cmd, flags], nInit, nInit x [h], nE, nE x [cmd, source nick, client's nick when read], nC, nC x [clear
 //	command], nT, nT x [count, count x [op]], nCert, nCert x [action], observed actions
 //
 // flags: b background, t AddTmp, d AddTmp with a deadline, i internal, g gated (see hangup).
@@ -65,9 +65,41 @@ func (h trHandler) flags() string {
 	return s
 }
 
+// trEvent is one line from the server as far as dispatch is concerned: its command, the nick
+// part of its source ("" = no source) and the nick the client has when the line is read.
 type trEvent struct {
 	cmd  string
-	echo bool
+	src  string
+	nick string
+}
+
+// trFold is RFC1459 case folding as the statement has it: A-Z and [ \ ] ^ are the upper case
+// of a-z and { | } ~.
+func trFold(s string) string {
+	b := []byte(s)
+	for i, c := range b {
+		if c >= 'A' && c <= '^' {
+			b[i] = c + 32
+		}
+	}
+	return string(b)
+}
+
+// isEcho: an echo of the client's own message — a PRIVMSG or NOTICE whose source is the
+// client's current nick, in any RFC1459 case.
+func (e trEvent) isEcho() bool {
+	return (e.cmd == "PRIVMSG" || e.cmd == "NOTICE") && e.src != "" && trFold(e.src) == trFold(e.nick)
+}
+
+// trEv: an event of a scenario in which the client keeps the nick "me".
+func trEv(cmd string, echo bool) trEvent {
+	switch {
+	case cmd != "PRIVMSG" && cmd != "NOTICE":
+		return trEvent{cmd, "irc.test", "me"}
+	case echo:
+		return trEvent{cmd, "me", "me"}
+	}
+	return trEvent{cmd, "other", "me"}
 }
 
 type trOp struct {
@@ -194,7 +226,7 @@ func trEncode(sc *trScenario, cert, obs []trAct) Case {
 	}
 	c = append(c, strconv.Itoa(len(sc.events)))
 	for _, e := range sc.events {
-		c = append(c, e.cmd, map[bool]string{true: "1", false: "0"}[e.echo])
+		c = append(c, e.cmd, e.src, e.nick)
 	}
 	c = append(c, strconv.Itoa(len(sc.clears)))
 	c = append(c, sc.clears...)
@@ -271,11 +303,12 @@ func trDecode(c Case) (sc *trScenario, cert, obs []trAct, ok bool) {
 	}
 	for j := 0; j < ne; j++ {
 		cmd, a := next()
-		e, b := next()
-		if !a || !b {
+		src, b := next()
+		nick, d := next()
+		if !a || !b || !d {
 			return nil, nil, nil, false
 		}
-		sc.events = append(sc.events, trEvent{cmd, e == "1"})
+		sc.events = append(sc.events, trEvent{cmd, src, nick})
 	}
 	nc, ok5 := count()
 	if !ok5 {
@@ -342,9 +375,9 @@ func trRoute(h trHandler, e trEvent) int {
 		return 0
 	case up == "*":
 		return 2
-	case up == e.cmd && !e.echo && h.bg:
+	case up == e.cmd && !e.isEcho() && h.bg:
 		return 1
-	case up == e.cmd && !e.echo:
+	case up == e.cmd && !e.isEcho():
 		return 3
 	}
 	return -1
@@ -551,26 +584,64 @@ func trRun(sc *trScenario, seed int64, procs int) (obs []trAct, stalled bool) {
 		}(i, prog)
 	}
 
-	// the event stream
-	for n, e := range sc.events {
-		if x := trMix(seed, 6, n, 0); x%4 == 0 {
-			time.Sleep(time.Duration(x>>8%1500) * time.Microsecond)
-		}
-		line := ":irc.test " + e.cmd + " me " + strconv.Itoa(n)
-		if e.cmd == "PRIVMSG" || e.cmd == "NOTICE" {
-			src := "other!u@host"
-			if e.echo {
-				src = "me!user@host"
-			}
-			line = ":" + src + " " + e.cmd + " #chan :" + strconv.Itoa(n)
-		}
-		log.stamp(trAct{kind: 'v', n: n})
+	// the event stream.  The client's nick changes where the scenario says so: by the 001 that
+	// opens a scenario with nick changes, and by NICK lines.  The echo flag of a line is
+	// computed when the line is READ, so a line that follows a nick change is sent only after the
+	// client has handled the change (its answer to a PING sent after the NICK is on the wire; for
+	// 001, whose handler runs in the background, GetNick shows the new nick).
+	send := func(line string) bool {
 		s.Peer.SetWriteDeadline(time.Now().Add(2 * c06StallLimit)) // the client reads nothing for two minutes
 		if s.Send(line) != nil {
 			timedOut = true
 			trStall(1)
+			return false
+		}
+		return true
+	}
+	cur := "me"
+	barriers := 0
+	feedOK := true
+	if len(sc.events) > 0 && sc.events[0].nick != cur {
+		cur = sc.events[0].nick
+		feedOK = send(":irc.test 001 " + cur + " :Welcome")
+		if feedOK && !c06Await(func() bool { return s.C.GetNick() == cur }, progress, c06StallLimit) {
+			timedOut = true
+			trStall(9)
+		}
+	}
+	for n, e := range sc.events {
+		if !feedOK {
 			break
 		}
+		if x := trMix(seed, 6, n, 0); x%4 == 0 {
+			time.Sleep(time.Duration(x>>8%1500) * time.Microsecond)
+		}
+		if e.nick != cur {
+			barriers++
+			tok := "c06nick" + strconv.Itoa(barriers)
+			if !send(":"+cur+"!user@host NICK "+e.nick) || !send("PING :"+tok) {
+				break
+			}
+			cur = e.nick
+			if !c06Await(func() bool {
+				for _, l := range s.Since(0) {
+					if strings.HasPrefix(l, "PONG") && strings.HasSuffix(strings.TrimSpace(l), tok) {
+						return true
+					}
+				}
+				return false
+			}, progress, c06StallLimit) {
+				timedOut = true
+				trStall(10)
+				break
+			}
+		}
+		line := ":" + e.src + " " + e.cmd + " " + cur + " " + strconv.Itoa(n)
+		if e.cmd == "PRIVMSG" || e.cmd == "NOTICE" {
+			line = ":" + e.src + "!user@host " + e.cmd + " #chan :" + strconv.Itoa(n)
+		}
+		log.stamp(trAct{kind: 'v', n: n})
+		feedOK = send(line)
 	}
 	regsDone := make(chan struct{})
 	go func() { regs.Wait(); close(regsDone) }()
@@ -743,7 +814,7 @@ func trOracle(sc *trScenario, obs []trAct) string {
 				return fmt.Sprintf("delivered-twice: event %d (%s) started handler %d (%s) %d times", n, e.cmd, h, d.cmd, len(st))
 			}
 			if len(st) == 1 && route < 0 {
-				if e.echo && strings.ToUpper(d.cmd) != "*" {
+				if e.isEcho() && strings.ToUpper(d.cmd) != "*" {
 					return fmt.Sprintf("echo-to-command-handler: echo %d (%s) reached handler %d registered for %s", n, e.cmd, h, d.cmd)
 				}
 				return fmt.Sprintf("misrouted: event %d (%s) reached handler %d registered for %s", n, e.cmd, h, d.cmd)
@@ -1184,7 +1255,7 @@ func genTraceScenario(r *rand.Rand) *trScenario {
 	for n := 0; n < ne; n++ {
 		cmd := Pick(r, "FOO", "FOO", "BAR", "PRIVMSG", "NOTICE", "BAZ")
 		echo := (cmd == "PRIVMSG" || cmd == "NOTICE") && r.Intn(2) == 0
-		sc.events = append(sc.events, trEvent{cmd, echo})
+		sc.events = append(sc.events, trEv(cmd, echo))
 	}
 	sc.clears = []string{"foo", "BAR", "Privmsg", "notice", "*", "baz"}
 	nt := 1 + r.Intn(2)
@@ -1262,18 +1333,78 @@ func genHangupScenario(r *rand.Rand) *trScenario {
 	for n := 0; n < ne; n++ {
 		cmd := Pick(r, "FOO", "FOO", "BAR", "PRIVMSG", "NOTICE", "BAZ")
 		echo := (cmd == "PRIVMSG" || cmd == "NOTICE") && r.Intn(3) == 0
-		sc.events = append(sc.events, trEvent{cmd, echo})
+		sc.events = append(sc.events, trEv(cmd, echo))
 	}
 	sc.clears = []string{"foo"}
 	sc.threads = [][]trOp{{}}
 	return sc
 }
 
+var trNickPool = []string{"Me0", "ME0", "me0", "me[1]", "ME{1}", "Me[1}", "Zed", "zED", "a|b", "A\\B", "bot"}
+
+// trVariant spells nick differently without changing its RFC1459 identity.
+func trVariant(r *rand.Rand, nick string) string {
+	b := []byte(nick)
+	for i, c := range b {
+		if r.Intn(2) == 0 {
+			continue
+		}
+		switch {
+		case c >= 'A' && c <= ']':
+			b[i] = c + 32
+		case c >= 'a' && c <= '}':
+			b[i] = c - 32
+		}
+	}
+	return string(b)
+}
+
+// genNickScenario: a scenario during which the client's nick changes (renamed at 001, NICK
+// lines, case-only renames, renames back) with echoes in any case variant of the current nick
+// and messages from somebody else who holds one of the client's previous nicks.
+func genNickScenario(r *rand.Rand) *trScenario {
+	sc := genTraceScenario(r)
+	cur := Pick(r, trNickPool...)
+	prev := []string{"me"}
+	for n := range sc.events {
+		if n > 0 && r.Intn(5) == 0 {
+			next := Pick(r, trNickPool...)
+			if r.Intn(4) == 0 {
+				next = trVariant(r, cur) // case-only rename
+			}
+			if r.Intn(4) == 0 {
+				next = prev[r.Intn(len(prev))] // back to an earlier nick
+			}
+			if next != cur {
+				prev = append(prev, cur)
+				cur = next
+			}
+		}
+		cmd := Pick(r, "PRIVMSG", "NOTICE", "PRIVMSG", "NOTICE", "FOO", "BAR")
+		src := "irc.test"
+		if cmd == "PRIVMSG" || cmd == "NOTICE" {
+			switch r.Intn(10) {
+			case 0, 1, 2, 3:
+				src = trVariant(r, cur) // an echo
+			case 4, 5, 6:
+				src = trVariant(r, prev[r.Intn(len(prev))]) // somebody else with a nick the client had (an echo only if it is the current one again)
+			default:
+				src = "other"
+			}
+		}
+		sc.events[n] = trEvent{cmd, src, cur}
+	}
+	return sc
+}
+
 func genTraceCase(r *rand.Rand) Case {
 	var sc *trScenario
-	if r.Intn(5) == 0 {
+	switch r.Intn(5) {
+	case 0:
 		sc = genHangupScenario(r)
-	} else {
+	case 1:
+		sc = genNickScenario(r)
+	default:
 		sc = genTraceScenario(r)
 	}
 	seed := r.Int63()
@@ -1316,8 +1447,11 @@ func trSig(sc *trScenario, obs []trAct) string {
 		case 'r':
 			f[string(a.op.kind)+string(a.o)] = true
 		case 'S':
-			if a.n < len(sc.events) && sc.events[a.n].echo {
+			if a.n < len(sc.events) && sc.events[a.n].isEcho() {
 				f["echo"] = true
+			}
+			if a.n < len(sc.events) && sc.events[a.n].nick != "me" {
+				f["nick"] = true
 			}
 			f["start"] = true
 		}
